@@ -9,6 +9,7 @@ import (
 	"os"
 	"strconv"
 	"strings"
+	"sync"
 	"testing"
 	"unsafe"
 
@@ -51,6 +52,27 @@ type c53Pool struct {
 	allocs []*c53Alloc
 	fails  []seqx.Fail
 	gets   int
+	arena  *c53Arena
+}
+
+// c53Arena is recycled scratch memory for one run (fresh heap memory is
+// expensive to touch; nothing of a run outlives it). Every byte handed out is
+// overwritten by the caller before use.
+type c53Arena struct {
+	buf []byte
+	off int
+}
+
+var c53ArenaPool = sync.Pool{New: func() any { return &c53Arena{buf: make([]byte, 192<<10)} }}
+
+func (a *c53Arena) alloc(n, c int) []byte {
+	c = (c + 63) &^ 63
+	if a == nil || a.off+c > len(a.buf) {
+		return make([]byte, n, max(c, n))
+	}
+	b := a.buf[a.off : a.off+n : a.off+c]
+	a.off += c
+	return b
 }
 
 func (p *c53Pool) fail(class, format string, a ...any) {
@@ -82,11 +104,9 @@ func (p *c53Pool) register(b []byte, fromGet bool) *c53Alloc {
 func (p *c53Pool) Get(n int) *[]byte {
 	p.gets++
 	c := (n + 511) / 512 * 512
-	b := make([]byte, n, c)
-	full := b[:c]
-	for i := range full {
-		full[i] = c53Dirty
-	}
+	b := p.arena.alloc(n, c)
+	b = b[:n:c]
+	c53Fill(b[:c], c53Dirty)
 	p.register(b, true)
 	return &b
 }
@@ -122,9 +142,7 @@ func (p *c53Pool) Put(b *[]byte) {
 	if a.puts > 1 {
 		p.fail("double-put", "allocation #%d was returned to the pool %d times", a.id, a.puts)
 	}
-	for i := range a.backing {
-		a.backing[i] = c53Poison
-	}
+	c53Fill(a.backing, c53Poison)
 }
 
 // ----------------------------------------------------------- the model ----
@@ -193,15 +211,30 @@ func (w *c53World) fail(class, format string, a ...any) {
 // the poison or the pool's dirty filler.
 func (w *c53World) pattern(n int) []byte {
 	w.patterns++
-	b := make([]byte, n)
+	b := w.pool.arena.alloc(n, n)
+	add := byte(w.patterns * 61 % 160)
 	for i := range b {
-		b[i] = byte((i*7 + w.patterns*61 + i/251) % 160)
+		x := c53PatBase[i] + add
+		if x >= 160 {
+			x -= 160
+		}
+		b[i] = x
 	}
 	return b
 }
 
+var c53PatBase = func() []byte {
+	b := make([]byte, 4096)
+	for i := range b {
+		b[i] = byte((i*7 + i/251) % 160)
+	}
+	return b
+}()
+
 func (w *c53World) newRoot(a *c53Alloc, lo int, data []byte) *c53Root {
-	r := &c53Root{id: len(w.roots), alloc: a, lo: lo, data: append([]byte(nil), data...)}
+	cp := w.pool.arena.alloc(len(data), len(data))
+	copy(cp, data)
+	r := &c53Root{id: len(w.roots), alloc: a, lo: lo, data: cp}
 	if a != nil {
 		r.pooled = !IsBelowBufferPoolingThreshold(len(a.backing))
 		a.root = r
@@ -668,11 +701,10 @@ func c53Ops(maxH int) []c53Op {
 		if !room(w) {
 			return true
 		}
-		data := make([]byte, 1500, 2048)
+		data := w.pool.arena.alloc(1500, 2048)
+		data = data[:1500:2048]
 		copy(data, w.pattern(1500))
-		for i := 1500; i < 2048; i++ {
-			data[:2048][i] = c53Dirty
-		}
+		c53Fill(data[1500:2048], c53Dirty)
 		a := w.pool.register(data, false)
 		root := w.newRoot(a, 0, data)
 		b := NewBuffer(&data, w.pool)
@@ -692,7 +724,8 @@ func c53Ops(maxH int) []c53Op {
 		if !room(w) {
 			return true
 		}
-		data := make([]byte, 600, 1024)
+		data := w.pool.arena.alloc(600, 1024)
+		data = data[:600:1024]
 		copy(data, w.pattern(600))
 		a := w.pool.register(data, false)
 		root := w.newRoot(a, 0, data)
@@ -1052,7 +1085,10 @@ func c53Names(ops []c53Op) []string {
 
 func c53Runner(ops []c53Op, maxH int, stale, everyStep bool) func(hist []int) seqx.Outcome {
 	return func(hist []int) (out seqx.Outcome) {
-		w := &c53World{pool: &c53Pool{}, maxH: maxH, stale: stale}
+		arena := c53ArenaPool.Get().(*c53Arena)
+		arena.off = 0
+		defer c53ArenaPool.Put(arena)
+		w := &c53World{pool: &c53Pool{arena: arena}, maxH: maxH, stale: stale}
 		cur := "init"
 		defer func() {
 			if p := recover(); p != nil {
